@@ -42,11 +42,12 @@ structure Built (P : Prim K) (s : Spec K) (st : Settings K) (m : Model K) : Prop
   spec_eq : m.spec = s
   cfg_eq : m.cfg = mkConfig s
   settings_eq : m.settings = st
+  no_duplicates : specDuplicates s = false
   no_shapesys_reuse : shapesysReuse s = false
-  nominal_ok : nominalLengthsOK s (mkConfig s) = true
-  histo_total : finalizeLengthsOK s (mkConfig s) .histosys = true
+  walk_ok : walkError s (mkConfig s) = none
   params : createParamsets P s (mkConfig s) = .ok m.ps
   slices_eq : m.slices = parSlices m.ps
+  no_orphans : orphanError (mkConfig s) m.ps = none
   reindex_shapesys : reindexError s (mkConfig s) (parSlices m.ps) .shapesys = none
   reindex_staterror : reindexError s (mkConfig s) (parSlices m.ps) .staterror = none
 
@@ -73,8 +74,84 @@ theorem buildModel_built (P : Prim K) (s : Spec K) (st : Settings K) (m : Model 
                 · cases h
                 · split at h
                   · cases h
-                  · cases h
-                    constructor <;> simp_all
+                  · split at h
+                    · cases h
+                    · cases h
+                      constructor <;> simp_all
+
+/-- a clean sorted walk means every defined sample has its channel's bin count … -/
+theorem walk_nominal (s : Spec K) (cfg : Config) (h : walkError s cfg = none) : nominalLengthsOK s cfg = true := by
+  unfold walkError at h
+  rw [List.findSome?_eq_none_iff] at h
+  unfold nominalLengthsOK
+  rw [List.all_eq_true]
+  intro c hc
+  have h1 := h c hc
+  rw [List.findSome?_eq_none_iff] at h1
+  rw [List.all_eq_true]
+  intro sm hsm
+  have h2 := h1 sm hsm
+  cases hf : findSample s c sm with
+  | none => rfl
+  | some x =>
+    rw [hf] at h2
+    simp only [] at h2
+    by_cases hl : x.data.length = cfg.nbOf c
+    · simp [hl]
+    · have : (x.data.length != cfg.nbOf c) = true := by simpa using hl
+      simp [this] at h2
+
+/-- … and every histosys variation has the bin count of its own channel -/
+theorem walk_histo (s : Spec K) (cfg : Config) (h : walkError s cfg = none) : histoBlocksOK s cfg = true := by
+  have hnom := walk_nominal s cfg h
+  unfold walkError at h
+  rw [List.findSome?_eq_none_iff] at h
+  unfold histoBlocksOK
+  rw [List.all_eq_true]
+  intro c hc
+  have h1 := h c hc
+  rw [List.findSome?_eq_none_iff] at h1
+  rw [List.all_eq_true]
+  intro sm hsm
+  have h2 := h1 sm hsm
+  rw [List.all_eq_true]
+  intro n hn
+  rw [List.all_eq_true]
+  intro hi _
+  unfold varBlk
+  cases hf : findSample s c sm with
+  | none => simp
+  | some x =>
+    rw [hf] at h2
+    simp only [] at h2
+    have hlen : x.data.length = cfg.nbOf c := by
+      unfold nominalLengthsOK at hnom
+      rw [List.all_eq_true] at hnom
+      have := hnom c hc
+      rw [List.all_eq_true] at this
+      have := this sm hsm
+      rw [hf] at this; simpa using this
+    have hne : (x.data.length != cfg.nbOf c) = false := by simp [hlen]
+    simp only [hne, Bool.false_eq_true, if_false] at h2
+    rw [List.findSome?_eq_none_iff] at h2
+    have hmem : (n, ModType.histosys) ∈ cfg.modifiers := by
+      simp only [List.mem_map, List.mem_filter] at hn
+      obtain ⟨⟨n', t'⟩, ⟨hm, ht⟩, rfl⟩ := hn
+      have : t' = ModType.histosys := by simpa using ht
+      subst this; exact hm
+    have h3 := h2 (n, .histosys) hmem
+    simp only [modAppendError] at h3
+    cases hm : findMod x n .histosys with
+    | none => simp [hm, hlen]
+    | some md =>
+      rw [hm] at h3
+      simp only [] at h3
+      by_cases hb : (x.data.length != md.lo.length || x.data.length != md.hi.length) = true
+      · simp [hb] at h3
+      · simp only [Bool.or_eq_true, bne_iff_ne, ne_eq, not_or, not_not] at hb
+        cases hi
+        · simp [hm, ← hlen, hb.1]
+        · simp [hm, ← hlen, hb.2]
 
 theorem nominal_block_length (s : Spec K) (cfg : Config) (h : nominalLengthsOK s cfg = true)
     (c : String) (hc : c ∈ cfg.channels) (sm : String) (hsm : sm ∈ cfg.samples) :
@@ -117,18 +194,18 @@ theorem reindex_sing (s : Spec K) (cfg : Config) (sl : List (String × Nat × Na
 
 /-- a successfully built model whose histosys variations have per-channel bin counts is block-structured -/
 theorem shape_of_built (P : Prim K) (s : Spec K) (st : Settings K) (m : Model K)
-    (hb : Built P s st m) (hh : histoBlocksOK s (mkConfig s) = true) : Shape m where
+    (hb : Built P s st m) : Shape m where
   nmain_eq := by rw [hb.cfg_eq]; exact mkConfig_nbOf_sum s
   nom_len := by
     intro c hc sm hsm
     rw [hb.cfg_eq] at hc hsm
     rw [hb.spec_eq, hb.cfg_eq]
-    exact nominal_block_length s _ hb.nominal_ok c hc sm hsm
+    exact nominal_block_length s _ (walk_nominal s _ hb.walk_ok) c hc sm hsm
   var_len := by
     intro c hc n hn sm hsm hi
     rw [hb.cfg_eq] at hc hsm hn
     rw [hb.spec_eq, hb.cfg_eq]
-    exact histo_block_length s _ hh c hc n hn sm hsm hi
+    exact histo_block_length s _ (walk_histo s _ hb.walk_ok) c hc n hn sm hsm hi
   sing := by
     intro n t hmem ht
     rw [hb.cfg_eq] at hmem
